@@ -28,113 +28,34 @@ import collections
 BACKEND = 'sv'
 PID = 'C03'
 
-def report(ctx, r, pid, backend):
-  """turn one classified result into count / violation"""
-  d = r.d
-  tags = [f[4:] for f in d.features if f.startswith('tag:')]
-  base = {'design': d.name, 'kind': d.kind, 'backend': backend, 'design_source': d.source if d.kind in ('gen', 'directed') else d.source}
-  if r.status == 'rejected':
-    ctx.hist['rejected:' + r.detail] = ctx.hist.get('rejected:' + r.detail, 0) + 1
-    return
-  if r.status == 'unmodelled':
-    ctx.hist['unmodelled-construct'] = ctx.hist.get('unmodelled-construct', 0) + 1
-    ctx.extra.setdefault('unmodelled', []).append(f'{d.name}: {r.detail[:120]}')
-    if d.kind in ('gen', 'directed'):
-      ctx.violation(f'{pid}:generator-outside-subset:{d.name}', f'generated design {d.name} uses a construct svparse does not model: {r.detail[:200]}', base, found_input=False)
-    return
-  if r.status == 'syntax':
-    kind = getattr(r.exc, 'kind', 'grammar')
-    if kind == 'select-on-expression':
-      what = 'sext-of-trunc' if "size cast" in r.detail else ('sext-of-literal' if 'a literal' in r.detail else 'sext-of-parenthesised')
-      key = f'{pid}:syntax:select-on-expression:{what}'
-      ctx.violation(key, f'emitted text is not SystemVerilog: {r.detail[:260]} (design {d.name}; IEEE 1800-2017 A.8.4: a select may only follow an identifier or a concatenation)',
-                    dict(base, emitted=eng.emitted_lines(r.text, '[', 0)[:0] or r.detail, parser_message=r.detail))
-    elif d.kind == 'case' and 'placeholder' in (d.source or '').lower():
-      ctx.hist['unmodelled-construct'] = ctx.hist.get('unmodelled-construct', 0) + 1
-    else:
-      ctx.violation(f'{pid}:syntax:{d.name}', f'emitted text of {d.name} does not fit the grammar of the emitted subset: {r.detail[:300]}', dict(base, parser_message=r.detail, emitted_text=r.text[-3000:]))
-    return
-  if r.status == 'portmap':
-    ctx.violation(f'{pid}:portmap:{d.name}', f'{d.name}: emitted port list does not match the component: {r.detail[:300]}', dict(base, emitted_text=r.text[:3000]))
-    return
-
-def classify_bad(ctx, r, pid, backend):
-  d = r.d
-  w = eng.parse_why(r)
-  tags = [f[4:] for f in d.features if f.startswith('tag:')]
-  base = {'design': d.name, 'kind': d.kind, 'backend': backend, 'design_source': d.source, 'coq_says': w.get('raw')}
-  if w['kind'] == 'unparsed' or w['wellformed'] is False:
-    ctx.violation(f'{pid}:not-wellformed:{d.name}', f'{d.name}: emitted text fails sv_wellformed (undeclared identifier / ill-typed select / instance mismatch): {w.get("raw", "")[:200]}', dict(base, emitted_text=r.text[:4000]))
-    return
-  if w.get('collisions', '[]') != '[]':
-    ctx.violation(f'{pid}:multi-driver:{d.name}', f'{d.name}: a variable bit has more than one driver: {w["collisions"][:300]}', dict(base, collisions=w['collisions'], emitted_text=r.text[:6000]))
-  if w.get('undriven', '[]') != '[]':
-    ctx.violation(f'{pid}:undriven:{d.name}', f'{d.name}: a declared variable has a bit without any driver: {w["undriven"][:300]}', dict(base, undriven=w['undriven'], emitted_text=r.text[:6000]))
-  if w['kind'] == 'nofixpoint':
-    ctx.violation(f'{pid}:no-fixpoint:{d.name}', f'{d.name}: the emitted module did not settle (cycle {w["cycle"]}, phase {w["phase"]})', dict(base, emitted_text=r.text[:6000]), found_input=False)
-    return
-  if w['kind'] != 'mismatch': return
-  cyc, port = w['cycle'], w['port']
-  obs = eng.observed_at(r, cyc, port, backend)
-  ins = r.trace[cyc][0]
-  replay = dict(base, cycle=cyc, port=port, pymtl_value=obs, emitted_text_value=w['model'], inputs_at_cycle=ins,
-                inputs_all_cycles=[c[0] for c in r.trace[:cyc + 1]], emitted_lines=eng.emitted_lines(r.text, port.split('__')[0]))
-  rep = eng.try_repair(ctx, r, 'x')
-  if rep and rep[1]:
-    hits = rep[0]
-    ops, e, true_v = hits[0]
-    op = ops[-1] if 'tag:const-subexpr' not in d.features else next((f[6:] for f in d.features if f.startswith('const:')), ops[-1])
-    if len(ops) > 1 and 'tag:const-subexpr' not in d.features: op = 'nested'
-    wdt = sv.const_tree(e, {})  # width only
-    ctx.violation(f'{pid}:const-subexpr-narrowed:{op}',
-                  f'{d.name}: constant sub-expression emitted unfolded with operands narrowed to the width of its folded value: `{sv.expr_text(e)}` '
-                  f'(pymtl3 uses {true_v}); port {port} at cycle {cyc}: emitted text gives {w["model"]}, pymtl3 gives {obs}; folding the constant makes the text agree',
-                  dict(replay, narrowed_subexpressions=[(o, sv.expr_text(x), v) for o, x, v in hits[:6]]))
-    ctx.hist['explained-by-const-narrowing'] = ctx.hist.get('explained-by-const-narrowing', 0) + 1
-    return
-  tag = next((t for t in tags if t not in ('control', 'const-subexpr')), None)
-  if tag is None and d.kind == 'gen':
-    for t in ('sext-of-expr', 'reduce-of-expr'):
-      if t in d.features: tag = 'suspect-' + t
-  fam = {'sext-of-binop': 'precedence', 'sext-of-ifexp': 'precedence', 'reduce-of-binop': 'precedence'}.get(tag)
-  key = f'{pid}:{fam}:{tag}' if fam else f'{pid}:mismatch:{d.name}'
-  ctx.violation(key, f'{d.name}: output {port} at cycle {cyc}: emitted text gives {w["model"]}, pymtl3 gives {obs}' + (f' [{tag}]' if tag else '') +
-                (f'; narrowed constants present but folding them does not repair it' if rep else ''), replay)
-
-def run(ctx, pid=PID, backend=BACKEND):
-  setup_impl_path()
+def designs_for(ctx):
   quick = ctx.tier == 'quick'
-  ncyc = 16 if quick else 40
-  designs = eng.directed_designs(ctx) + sv.stdlib_designs(ctx.tier) + sv.testcase_designs() + eng.gen_designs(ctx, 110 if quick else 1500)
-  sim_cache = {}
-  results = []
-  for k, d in enumerate(designs):
-    r = eng.prepare(ctx, d, backend, ncyc, ctx.seed + k, sim_cache)
-    results.append(r)
-  for lo in range(0, len(results), 300):
-    eng.evaluate(ctx, results[lo:lo + 300], f'{backend}{lo}')
+  return (eng.directed_designs(ctx) + sv.stdlib_designs(ctx.tier) + sv.testcase_designs() +
+          eng.gen_designs(ctx, 110 if quick else 1500))
+
+def summarize(ctx, results):
   feats = collections.Counter()
   for r in results:
-    d = r.d
     if r.status in ('ok', 'bad'):
-      ctx.count((d.name, sv.text_key(r.text)), True, cls=f'{d.kind}:{r.status}')
-      for f in d.features:
+      for f in r.d.features:
         if not f.startswith('tag:'): feats[f] += 1
-    else:
-      ctx.count((d.name, r.status, r.detail[:40]), r.status in ('syntax', 'portmap'), cls=f'{d.kind}:{r.status}')
-    report(ctx, r, pid, backend)
-    if r.status == 'bad': classify_bad(ctx, r, pid, backend)
-  # static indicators over all parsed texts (information, not a verdict): literals that do not fit their width
+  # static indicators over all parsed texts (information, not a verdict)
   over = [(r.d.name, svparse.overflowing_literals(r.f)[:2]) for r in results if r.f is not None and svparse.overflowing_literals(r.f)]
   ctx.extra['designs_with_truncated_literal'] = len(over)
   ctx.extra['truncated_literal_examples'] = [f"{n}: {h[0][1]}'d{h[0][2]}" for n, h in over[:6]]
-  ctx.extra['feature_histogram'] = dict(feats.most_common(60))
+  ctx.extra['feature_histogram'] = dict(feats.most_common(70))
   ctx.extra['designs'] = {k: sum(1 for r in results if r.d.kind == k) for k in ('directed', 'stdlib', 'case', 'gen')}
   ok = [r for r in results if r.status == 'ok']
   if ok:
-    r = ok[len(ok) // 2]
-    ctx.sample({'design': r.d.name, 'kind': r.d.kind, 'cycles': len(r.trace), 'first_cycle': {'in': r.trace[0][0], 'out': r.trace[0][1]},
-                'emitted_tail': r.text[-400:]})
+    for r in (ok[len(ok) // 3], ok[-1]):
+      ctx.sample({'design': r.d.name, 'kind': r.d.kind, 'backend': r.backend, 'cycles': len(r.trace),
+                  'first_cycle': {'in': r.trace[0][0], 'out': r.trace[0][1]}, 'emitted_tail': r.text[-300:]})
+
+def run(ctx):
+  setup_impl_path()
+  ncyc = 16 if ctx.tier == 'quick' else 40
+  results = eng.run_backend(ctx, PID, BACKEND, designs_for(ctx), ncyc, {})
+  summarize(ctx, results)
   return results
 
 def main(ctx):
